@@ -105,20 +105,20 @@ Definition k_name : text := [110; 97; 109; 101].
 Section Body.
 Variable txt : N -> text.          (* the text of a namespace / name / status *)
 Variable msg : err -> text.        (* the text of an error *)
-Variable result : N -> value.      (* the value model k computes for the request at hand *)
+Variable result : N -> value.      (* the value the evaluator built from document d computes for the request at hand *)
 
 (* ResultDto serialised by serde_json; the evaluate handler writes {"data": + Value::jsonify() + } itself *)
 Definition body (r : reply) : text :=
   match r with
   | RAdded n k => compact (VCtx [(k_data, VCtx [(k_namespace, VStr (txt n)); (k_name, VStr (txt k))])])
   | RStatus c => compact (VCtx [(k_data, VCtx [(k_status, VStr (txt c))])])
-  | RValue k => 123 :: quote k_data ++ 58 :: jsonify (result k) ++ [125]
+  | RValue _ d => 123 :: quote k_data ++ 58 :: jsonify (result d) ++ [125]
   | RErr e => compact (VCtx [(k_errors, VList [VCtx [(k_details, VStr (msg e))]])])
   end.
 (* the evaluate handler of the pinned commit *)
 Definition body_orig (r : reply) : text :=
   match r with
-  | RValue k => 123 :: quote k_data ++ 58 :: jsonify_orig (result k) ++ [125]
+  | RValue _ d => 123 :: quote k_data ++ 58 :: jsonify_orig (result d) ++ [125]
   | _ => body r
   end.
 End Body.
